@@ -1,8 +1,33 @@
 import RtenVerif.Driver.Util
 import RtenVerif.Model.RtenHeader
+import RtenVerif.Model.ConstNarrow
 
 namespace RtenVerif.Driver.C20
-open RtenVerif.Driver RtenVerif.RtenHeader
+open RtenVerif.Driver RtenVerif.RtenHeader RtenVerif.ConstNarrow
+
+/-- `cst <kind> v1,v2,…`: the constant as both loaders must deliver it (see harness `c20_e2e.rs`):
+`i64` → saturated i32s; `f64` (u64 bit patterns) → f32 bit patterns, RNE, NaN canonical;
+`f16` (bit patterns) → f32 bit patterns; `bool` → 0/1; `u8t` / `i8t` (`int32_data` elements) →
+wrapped; `i32` / `f32` unchanged. -/
+def cst (kind vals : String) : String :=
+  match kind with
+  | "i64" => (match parseIntList "," vals with
+      | some xs => "i32 " ++ showInts "," (xs.map satCastI64ToI32) | none => "bad-request")
+  | "f64" => (match parseNatList "," vals with
+      | some xs => "f32 " ++ showNats "," (xs.map fun b => canonNaN32 (f64ToF32Bits b)) | none => "bad-request")
+  | "f16" => (match parseNatList "," vals with
+      | some xs => "f32 " ++ showNats "," (xs.map fun b => canonNaN32 (f16ToF32Bits (b % 65536))) | none => "bad-request")
+  | "bool" => (match parseIntList "," vals with
+      | some xs => "i32 " ++ showInts "," (xs.map loaderBool) | none => "bad-request")
+  | "u8t" => (match parseIntList "," vals with
+      | some xs => "u8 " ++ showInts "," (xs.map wrapU8) | none => "bad-request")
+  | "i8t" => (match parseIntList "," vals with
+      | some xs => "i8 " ++ showInts "," (xs.map wrapI8) | none => "bad-request")
+  | "i32" => (match parseIntList "," vals with
+      | some xs => "i32 " ++ showInts "," xs | none => "bad-request")
+  | "f32" => (match parseNatList "," vals with
+      | some xs => "f32 " ++ showNats "," (xs.map canonNaN32) | none => "bad-request")
+  | _ => "bad-request"
 
 def errName : HeaderError → String
   | .tooShort => "TooShort" | .unsupportedVersion => "UnsupportedVersion"
@@ -13,7 +38,8 @@ def errName : HeaderError → String
 * `hdr b0,b1,…`            → `ok <version> <model_offset> <model_len> <tensor_data_offset>` | `err:<class>`
 * `tobuf v off len tdo`    → comma separated bytes
 * `f16 i`                  → f32 bit pattern (decimal)
-* `sat x1,x2,…`            → saturated i32 values -/
+* `sat x1,x2,…`            → saturated i32 values
+* `cst kind v1,v2,…`       → narrowed constant, see `cst` -/
 def handle (line : String) : String :=
   match words line with
   | ["hdr"] => (match fromBuf [] with | .ok _ => "ok" | .error e => s!"err:{errName e}")
@@ -33,6 +59,7 @@ def handle (line : String) : String :=
     match i.toNat? with
     | some i => toString (f16ToF32Bits i)
     | none => "bad-request"
+  | ["cst", kind, vals] => cst kind vals
   | ["sat", xs] =>
     match parseIntList "," xs with
     | some xs => showInts "," (xs.map satCastI64ToI32)
